@@ -72,9 +72,13 @@ def run(ctx):
         for d in (0, 1, 3):
             scenarios.append({"req": ["echo", req_last], "acc": acc, "acc_delay_ms": d, "reject": False, "shake": True, "timeouts": 0.5})
     results = e2e.run_many(scenarios, ctx.seed, workers=12)
-    good = [r for r in results if "harness_error" not in r]
+    good = [r for r in results if "harness_error" not in r and not r.get("hang")]
     for r in results:
-        if "harness_error" in r:
+        if r.get("hang"):
+            case = ["scenario", r["script"], "hang"]
+            ctx.case(case, kind="hang")
+            ctx.fail("c06:does-not-terminate", f"scenario did not finish within {r['limit']:.0f} s; threads alive {r['threads']} (script {r['script']})", case)
+        elif "harness_error" in r:
             ctx.diff(["scenario", r["script"]], r["harness_error"], "n/a", "scenario harness failed")
     reqs = [["outcome.verdict", side_term(r["req"]), side_term(r["acc"])] for r in good]
     reps = ctx.lean(reqs)
